@@ -70,7 +70,7 @@ func (sc *Scenario) Materialize(root string, resultDir string) ([]string, error)
 	if err := sc.writeWeather(wdir); err != nil {
 		return nil, err
 	}
-	if sc.PrecipCorr {
+	if sc.PrecipCorr || sc.AlwaysPreco {
 		var pb strings.Builder
 		pb.WriteString("Mo Corr\n")
 		for m := 0; m < 12; m++ {
